@@ -139,10 +139,8 @@ impl JoinAndGetDepth for Path {
         let depth = if path.is_absolute() {
             // If `path` is absolute, then it replaces `self` (`joined` and `path` are the same).
             // In this case, the depth of the join is the depth of `joined` (there is no root
-            // sub-path).
+            // sub-path). Note that the root is a component of `joined`.
             depth
-                .checked_add(1)
-                .expect("overflow determining join depth")
         }
         else {
             depth.saturating_sub(self.components().count())
